@@ -1,2 +1,37 @@
 //! Read-only probe (child module of `ntp-proto/src/source.rs`), compiled only under
-//! `--cfg pendulum_project_ntpd_rs_verif`. Owned by the world that needs it; must never mutate state.
+//! `--cfg pendulum_project_ntpd_rs_verif`. Owned by world w1c; never mutates state.
+
+use super::NtpSource;
+use crate::algorithm::SourceController;
+use crate::verif::source::SourceStateView;
+
+impl<Controller: SourceController> NtpSource<Controller> {
+    /// Snapshot of the private protocol state (no side effects).
+    pub fn verif_state(&self) -> SourceStateView {
+        let now = tokio::time::Instant::now();
+        SourceStateView {
+            last_poll: self.last_poll_interval.as_log(),
+            remote_min_poll: self.remote_min_poll_interval.as_log(),
+            protocol_version: self.protocol_version,
+            reach: self.reach.0,
+            tries: self.tries,
+            deny_seen: self.have_deny_rstr_response,
+            pending: self.current_request_identifier.is_some(),
+            pending_left_ns: self.current_request_identifier.map(|(_, until)| {
+                if until >= now {
+                    (until - now).as_nanos() as i128
+                } else {
+                    -((now - until).as_nanos() as i128)
+                }
+            }),
+            stratum: self.stratum,
+            is_nts: self.nts.is_some(),
+            nts_cookies: self.nts.as_ref().map(|n| n.cookies.len()),
+        }
+    }
+
+    /// Shared reference to the source controller (read-only use by the simulator).
+    pub fn verif_controller(&self) -> &Controller {
+        &self.controller
+    }
+}
